@@ -1,3 +1,4 @@
+import datetime
 import math
 
 from excel2pycl.src.cell import Cell
@@ -41,6 +42,11 @@ class CellTranslator(AbstractTranslator):
                 finally:
                     context.finish_cell(cell_uid)
             else:
+                if not isinstance(cell.value, (str, int, float, datetime.date, datetime.time, datetime.timedelta,
+                                               type(None))):
+                    # what the workbook reader hands over for a data table ({=TABLE(...)}) is an object, not a value
+                    raise E2PyclParserException(f'The content of the cell {cell} cannot be translated '
+                                                f'({type(cell.value).__name__})')
                 code = repr(cell.value) if cell.value is not None else 'self.EmptyCell()'
                 if isinstance(cell.value, float) and not math.isfinite(cell.value):
                     # repr() of an infinity or a NaN (a stored number beyond the doubles) is a name, not a literal
